@@ -201,10 +201,7 @@ theorem readStringLoop_u (q : Cur) (bs : Bytes) (c : Cur) (acc : Bytes) (buf : B
         · simp at hd; omega
       obtain ⟨rfl, rfl⟩ := hrw
       have ht : taken = [r] := by
-        simp only [taken]
-        split
-        · exact encodeRune_ascii hb
-        · simp
+        simp [taken]
       rw [stringBody_plain r t hb3 hb4]
       have h1 : isLineTerminatorStart r = false := by
         cases hsc : isLineTerminatorStart r with
@@ -225,11 +222,7 @@ theorem readStringLoop_u (q : Cur) (bs : Bytes) (c : Cur) (acc : Bytes) (buf : B
         simp only [h127, if_true, g2] at hd
         simp at hd; omega
       obtain ⟨rfl, rfl⟩ := hrw
-      have ht : taken = encodeRune r := by
-        simp only [taken]
-        split
-        · rfl
-        · exact g4
+      have ht : taken = encodeRune r := g4
       rw [stringBody_plain r t (by omega) (by omega)]
       have h1 : isLineTerminatorStart r = false := by
         cases hsc : isLineTerminatorStart r with
